@@ -6,6 +6,7 @@ package main
 // kernels is an uninterpreted function of the operands' contents.
 
 import (
+	"os"
 	"fmt"
 	"go/types"
 
@@ -505,8 +506,11 @@ func init() {
 			if argmax {
 				axis := args[1].C[0]
 				// axis removed
-				d = dimsOf{rank: sub(rank, "1"), dim: func(k string) string { return sel2(h, shp, ite(sx("<", k, axis), k, add(k, "1"))) }}
-				ok = and(sx("<=", "0", axis), sx("<", axis, rank))
+				// gorgonia: axis >= rank is an error; axis == -1 (AllAxes) is the flat argmax, a rank-0
+				// result; anything below -1 indexes the shape with a negative number (panic)
+				x.oblige(fr, "nopanic", "argmax-negative-axis", x.contractTags(fr), sx(">=", axis, "(- 1)"), fr.curPC, "tensor.Argmax with an axis below -1", "")
+				d = dimsOf{rank: ite(eq(axis, "(- 1)"), "0", sub(rank, "1")), dim: func(k string) string { return sel2(h, shp, ite(sx("<", k, axis), k, add(k, "1"))) }}
+				ok = sx("<", axis, rank)
 				dt = fmt.Sprint(dtypeCodes["Int"])
 			} else {
 				axes := args[1]
@@ -517,6 +521,23 @@ func init() {
 				d = dimsOf{rank: rr, dim: func(k string) string { return sx("reduced_dim", shp, axes.base(), axes.off(), axes.slen(), k) }}
 				ok = x.nondetBool(name + "_ok")
 				x.assume("true", and(sx("<=", "0", rr), sx("<=", rr, rank)))
+				// listed axes that are pairwise distinct and in range are exactly the ones removed: the
+				// remaining extents keep their order (position i moves to the number of kept positions below it)
+				A, off, n := sel(h, axes.base()), axes.off(), axes.slen()
+				distinct := fmt.Sprintf("(forall ((a Int)) (forall ((b Int)) (=> (and (<= 0 a) (< a b) (< b %s)) (not (= (select %s (+ %s a)) (select %s (+ %s b)))))))", n, A, off, A, off)
+				inrange := fmt.Sprintf("(forall ((k Int)) (=> (and (<= 0 k) (< k %s)) (and (<= 0 (select %s (+ %s k))) (< (select %s (+ %s k)) %s))))", n, A, off, A, off, rank)
+				nk := func(i string) string { return sx("nkept", A, off, n, "0", i) }
+				kept := fmt.Sprintf("(forall ((i Int)) (! (=> (and (<= 0 i) (< i %s) (not (memb %s %s %s 0 i))) (= %s (select (select %s %s) i))) :pattern ((memb %s %s %s 0 i))))",
+					rank, A, off, n, d.dim(nk("i")), h, shp, A, off, n)
+				x.assume("true", implies(and(sx(">", n, "0"), distinct, inrange), and(eq(rr, nk(rank)), kept)))
+				if os.Getenv("GVC_NO_REDUCE_SORT") == "" {
+					// gorgonia sorts the axis list it is given in place
+					defer func() {
+						if h2, okk := intrinsics["sort.Ints"]; okk {
+							h2(x, fr, i, fn, []Val{axes})
+						}
+					}()
+				}
 			}
 			res := x.newTensorObj(fr, name, d, dt, sx(x.ufn("k_"+name, 2), x.tCont(st, t), args[1].C[0]))
 			return x.resultTE(fr, i, ok, res)
@@ -525,7 +546,7 @@ func init() {
 	reg("gorgonia.org/tensor.Sum", "reduction over the listed axes (all when none): fresh tensor of the reduced shape", reduce("sum", false))
 	reg("(*gorgonia.org/tensor.Dense).Max", "reduction over the listed axes (all when none): fresh tensor of the reduced shape", reduce("max", false))
 	reg("(*gorgonia.org/tensor.Dense).Min", "reduction over the listed axes (all when none): fresh tensor of the reduced shape", reduce("min", false))
-	reg("gorgonia.org/tensor.Argmax", "index of the first maximum along axis: fresh int tensor with that axis removed; error if axis out of range", reduce("argmax", true))
+	reg("gorgonia.org/tensor.Argmax", "index of the first maximum along axis: fresh int tensor with that axis removed; axis >= rank is an error, axis == -1 means all axes (rank-0 result), axis < -1 panics", reduce("argmax", true))
 	softmax := func(name string) intrinsic {
 		return func(x *Exec, fr *Frame, i *ssa.Call, fn *ssa.Function, args []Val) Val {
 			st := fr.curSt
